@@ -16,7 +16,7 @@ from . import compat
 
 compat.install()
 
-from xdsl.dialects import arith, builtin, cf, func, scf  # noqa: E402
+from xdsl.dialects import arith, builtin, cf, func, memref, scf  # noqa: E402
 from xdsl.dialects.builtin import IndexType, IntegerType  # noqa: E402
 from xdsl.ir import Block, BlockArgument, Operation, SSAValue  # noqa: E402
 
@@ -123,6 +123,13 @@ class Machine:
         self.handlers = t
 
     # -- helpers
+    @property
+    def scratch(self):
+        d = self.__dict__.get("_scratch")
+        if d is None:
+            d = self.__dict__["_scratch"] = {}
+        return d
+
     def get(self, vals, v: SSAValue):
         try:
             return vals[v]
@@ -385,6 +392,28 @@ def _if(m, op, vals, core):
     for res, v in zip(op.results, values):
         vals[res] = v
     m.on_if_exit(op, vals, core)
+
+
+# -- a scalar scratch memory (accfg family: configuration values kept in memory).  Machines with a memory model of their
+# own override these handlers.
+
+
+@handler(memref.AllocOp)
+def _scratch_alloc(m, op, vals, core):
+    vals[op.memref] = ("scratch", id(op))
+
+
+@handler(memref.LoadOp)
+def _scratch_load(m, op, vals, core):
+    base = m.get(vals, op.memref)
+    key = (base, tuple(m.get(vals, i) for i in op.indices))
+    vals[op.res] = m.scratch.get(key, 0)
+
+
+@handler(memref.StoreOp)
+def _scratch_store(m, op, vals, core):
+    base = m.get(vals, op.memref)
+    m.scratch[(base, tuple(m.get(vals, i) for i in op.indices))] = m.get(vals, op.value)
 
 
 @handler(scf.ExecuteRegionOp)
